@@ -1057,6 +1057,41 @@ def f_metrics(tier="quick", seed=0):
                              ["K1", "K0", "M"], ["M", "K1", "K0"], {"K": 3, "M": 2, "N": 2}))
     specs.append(merger_spec("flat", {"A": ["N", "K", "M"], "Z": ["N"]}, ["Z[n] = A[n, k, m]"], {"(M, K)": ["flatten()"]}, ["N", "MK"],
                              ["N", "MK"], ["MK", "N"], ["N", "MK"], {"K": 2, "M": 2, "N": 2}))
+    # three bound memory levels (two distinct source memories at levels with different instance counts), both binding orders
+    def three_level(order):
+        def fmt(t, ranks):
+            yy = "  %s:\n    default:\n      rank-order: [%s]\n" % (t, ", ".join(ranks))
+            for r in ranks:
+                yy += "      %s:\n        format: C\n        cbits: 32\n        pbits: 64\n" % r
+            return yy
+        y = "format:\n" + fmt("A", ["M", "K"]) + fmt("B", ["K", "N"]) + fmt("Z", ["M", "N"])
+        y += ("architecture:\n  Acc:\n  - name: System\n    attributes:\n      clock_frequency: 101\n    local:\n"
+              "    - name: Mem\n      class: DRAM\n      attributes:\n        bandwidth: 211\n    subtree:\n"
+              "    - name: Cluster[0..3]\n      local:\n      - name: L2\n        class: Buffet\n        attributes:\n"
+              "          width: 64\n          depth: 1024\n          bandwidth: 223\n      subtree:\n"
+              "      - name: PE[0..6]\n        local:\n        - name: L1\n          class: Buffet\n          attributes:\n"
+              "            width: 64\n            depth: 64\n"
+              "        - name: Mul\n          class: compute\n          attributes:\n            type: mul\n")
+
+        def b(comp, extra=""):
+            out = "  - component: %s\n    bindings:\n" % comp
+            for ty in ("coord", "payload"):
+                out += "    - tensor: A\n      rank: K\n      type: %s\n      format: default\n%s" % (ty, extra)
+            return out
+        ev = "      evict-on: root\n      style: lazy\n"
+        bufs = [b("L2", ev), b("L1", ev)]
+        if order == "L1-first":
+            bufs.reverse()
+        y += "bindings:\n  Z:\n  - config: Acc\n    prefix: tmp/Z\n" + b("Mem") + "".join(bufs)
+        y += "  - component: Mul\n    bindings:\n    - op: mul\n"
+        secs = S.split_sections(y)
+        lo = ["M", "K", "N"]
+        return {"name": "metrics/three-level/" + order, "decl": decl, "exprs": exprs,
+                "mapping": {"loop-order": {"Z": lo}, "spacetime": {"Z": {"space": [], "time": lo}}},
+                "extents": {"K": 3, "M": 2, "N": 2}, "sizes": {}, "arch": secs["architecture"], "bindings": secs["bindings"],
+                "format": secs["format"], "tags": {"family": "metrics", "template": "three-level", "leader_first": True}}
+    specs.append(three_level("L2-first"))
+    specs.append(three_level("L1-first"))
     # partitioned variant (explicit shapes with interleaved levels)
     for lo in (["M1", "N", "K", "M0"], ["N", "M1", "M0", "K"], ["K", "M1", "N", "M0"]):
         for isect in (None, "two-finger", "leader-follower"):
